@@ -10,6 +10,7 @@ from __future__ import annotations
 import json
 
 from exabgp.bgp.message.open.capability.capability import Capability
+from exabgp.util import peertext
 from exabgp.bgp.message.open.capability.capability import CapabilityCode
 from exabgp.bgp.message.open.capability.capability import decode_utf8 as _decode_utf8
 from exabgp.bgp.message.notification import Notify
@@ -29,7 +30,7 @@ class Software(Capability):
         self.software_version: str = software_version
 
     def __str__(self) -> str:
-        return 'Software({})'.format(self.software_version)
+        return 'Software({})'.format(peertext(self.software_version, bare=True))
 
     def json(self) -> str:
         return '{{ "software": {} }}'.format(json.dumps(self.software_version))
